@@ -322,6 +322,14 @@ def observe(s, q, aq, rng, missing, topks=(2, 3, 5)):
                             "sort": [], "order": [], "grev": False, "collapsed": -1, "len": len(r),
                             "docs": [int(h.docnum) for h in r]}
                 limited(mk)
+
+                # the same with the matched terms recorded (one more collector wrapped around the others)
+                def mkt():
+                    r = s.search(q, limit=k, collapse=fn, collapse_limit=1, terms=True)
+                    return {"kind": "collapse", "path": "collapse=%s limit=1 k=%d terms=True" % (fn, k), "f": fn, "n": 1,
+                            "k": k, "sort": [], "order": [], "grev": False, "collapsed": -1, "len": len(r),
+                            "docs": [int(h.docnum) for h in r]}
+                limited(mkt)
             guard("collapse-topk:" + fn2, cfn2)
         # filter / mask
         afilt = world.rand_query(rng, 1, scored_only=True, ops=FACET_QUERY_OPS)
